@@ -210,6 +210,116 @@ func suffixRace(r *ev.Run, e *etcdx.Etcd, rng *rand.Rand, n int) string {
 	return "suffix-race|" + strings.Join(released, ",")
 }
 
+var manyDCNames = []string{"dc-1", "dc-10", "dc-100", "dc-1000", "dc-11", "dc-2", "dc-20", "dc-3", "dc-a", "dc-a1", "dc-ab", "east", "east-1", "east-10", "west"}
+
+// manyDCs: 15 members (the upper limit of dc-locations) with dc names that are prefixes of each other
+// publish their dc-location on a populated etcd root in two waves; the PD leader assigns suffixes
+// after the first wave, the PD leadership changes, the new leader assigns the rest. The history of
+// the suffix keys is judged by the suffix clauses; the width the PD leader would report after its
+// assignment must fit the largest stored suffix.
+func manyDCs(r *ev.Run, e *etcdx.Etcd, rng *rand.Rand, n int) bool {
+	root := fmt.Sprintf("/c05/m%02d_%04d", r.Shard, n)
+	w, err := tsow.NewWorld(e, root, len(manyDCNames), 3*time.Second, 50*time.Millisecond)
+	if err != nil {
+		addonSkip(r, "many-dc world: %v", err)
+		return false
+	}
+	w.Lease = 10
+	defer w.Close()
+	if err := w.Populate(r.Pick(1500, 4000)); err != nil {
+		addonSkip(r, "populate: %v", err)
+		return false
+	}
+	names := append([]string(nil), manyDCNames...)
+	rng.Shuffle(len(names), func(i, j int) { names[i], names[j] = names[j], names[i] })
+	prefix := w.Members[0].AM.GetLocalTSOSuffixPathPrefix() + "/"
+	first := 6 + rng.Intn(6)
+	var steps []string
+	publish := func(from, to int) bool {
+		for i := from; i < to; i++ {
+			if err := w.Members[i].AM.SetLocalTSOConfig(names[i]); err != nil {
+				addonSkip(r, "SetLocalTSOConfig(%s): %v", names[i], err)
+				return false
+			}
+		}
+		return true
+	}
+	var findings []finding
+	assign := func(m *tsow.Member, tag string) bool {
+		if err := m.Campaign(true); err != nil {
+			addonSkip(r, "campaign: %v", err)
+			return false
+		}
+		m.M.EnableLeader()
+		time.Sleep(20 * time.Millisecond) // checkers spawned by SetLocalTSOConfig / EnableLeader are pd's own; ours runs after them
+		m.AM.ClusterDCLocationChecker()
+		hs, err := e.History(prefix, w.StartRev)
+		if err != nil {
+			addonSkip(r, "history: %v", err)
+			return false
+		}
+		var max int64
+		for _, h := range hs {
+			if v, ok := atoi32(h.Value); ok && !h.Delete && int64(v) > max {
+				max = int64(v)
+			}
+		}
+		bits := m.AM.GetSuffixBits()
+		steps = append(steps, fmt.Sprintf("%s: PD leader m%d ran the dc-location check; %d suffix keys, largest %d, width %d", tag, m.Idx, len(hs), max, bits))
+		if max >= int64(1)<<uint(bits) {
+			findings = append(findings, finding{key: "suffix-bits-too-narrow:pd-leader-after-assignment",
+				what: fmt.Sprintf("after assigning suffixes up to %d the PD leader would report suffix_bits=%d", max, bits)})
+		}
+		return true
+	}
+	A, B := w.Members[0], w.Members[1+rng.Intn(len(w.Members)-1)]
+	if !publish(0, first) || !assign(A, "wave 1") {
+		return false
+	}
+	if !publish(first, len(names)) {
+		return false
+	}
+	A.Resign()
+	if !assign(B, "wave 2 after PD leader change") {
+		return false
+	}
+	B.Resign()
+	hs, err := e.History(prefix, w.StartRev)
+	if err != nil {
+		addonSkip(r, "history: %v", err)
+		return false
+	}
+	var sev []suffixEv
+	for _, h := range hs {
+		t := "PUT"
+		if h.Delete {
+			t = "DELETE"
+		}
+		sev = append(sev, suffixEv{Key: h.Key, DC: strings.TrimPrefix(h.Key, prefix), Type: t, Value: h.Value, Rev: h.Rev})
+	}
+	fs, sufOf, _ := judgeSuffixKeys(sev)
+	findings = append(findings, fs...)
+	for _, dc := range names {
+		if len(sufOf[dc]) == 0 {
+			r.Count("addon_many_dc_without_suffix", 1) // liveness only: counted, not judged
+		}
+	}
+	r.Count("addon_many_dc_suffix_keys", int64(len(sufOf)))
+	done := map[string]bool{}
+	for _, f := range findings {
+		key := f.key + ":many-dcs"
+		if done[key] {
+			continue
+		}
+		done[key] = true
+		r.Violation(key, f.what, map[string]interface{}{"dc_names_in_publication_order": names, "first_wave": first, "steps": steps, "suffix_key_history": sev})
+	}
+	r.Eval(1)
+	r.Distinct(fmt.Sprintf("many-dcs|%v|%d|B=m%d", names, first, B.Idx))
+	r.Count("addon_many_dc_worlds", 1)
+	return true
+}
+
 // addonSkip: a schedule that could not be driven (hook not reached in time, etcd trouble) is counted,
 // not judged.
 func addonSkip(r *ev.Run, format string, a ...interface{}) {
@@ -224,6 +334,9 @@ func suffixAddon(r *ev.Run, rng *rand.Rand, n int) {
 		return
 	}
 	defer e.Close()
+	for i := 0; i < r.Pick(2, 6); i++ {
+		manyDCs(r, e, rng, i)
+	}
 	for i := 0; i < n; i++ {
 		id := suffixRace(r, e, rng, i)
 		if id == "" {
